@@ -194,6 +194,10 @@ pub enum Edit {
     InsertRun(u16, u8, u8),
     /// n extra well-formed `;key<i>=<i>` pairs with pairwise distinct keys
     ExtraPairs(u16, u16),
+    /// swap two whole fields (segments between `;`, else between `,`, else between `:`)
+    SwapFields(u16, u16, u8),
+    /// cut a block of characters and paste it elsewhere
+    MoveBlock(u16, u8, u16),
 }
 
 #[derive(Clone, Debug, Hash, PartialEq, Eq, Serialize, Deserialize)]
@@ -213,6 +217,8 @@ fn edit() -> BoxedStrategy<Edit> {
         2 => (any::<u16>(), 1u8..40).prop_map(|(p, l)| Edit::Dup(p, l)),
         2 => any::<u16>().prop_map(Edit::Truncate),
         2 => (any::<u16>(), 0u8..6).prop_map(|(p, k)| Edit::Number(p, k)),
+        2 => (any::<u16>(), any::<u16>(), 0u8..3).prop_map(|(a, b, s)| Edit::SwapFields(a, b, s)),
+        1 => (any::<u16>(), 1u8..60, any::<u16>()).prop_map(|(a, l, b)| Edit::MoveBlock(a, l, b)),
     ]
     .boxed()
 }
@@ -295,6 +301,40 @@ pub fn apply_edits(base: &str, edits: &[Edit]) -> String {
             Edit::Truncate(p) => {
                 let i = pos_of(cs.len(), *p);
                 cs.truncate(i);
+            }
+            Edit::SwapFields(a, b, sep) => {
+                // preferred separator first, then whichever occurs at all
+                let order = [[';', ',', ':'], [',', ';', ':'], [':', ';', ',']][*sep as usize % 3];
+                if let Some(sc) = order.iter().find(|c| cs.iter().filter(|x| x == c).count() >= 1) {
+                    let mut segs: Vec<Vec<char>> = vec![Vec::new()];
+                    for ch in cs.iter() {
+                        if ch == sc {
+                            segs.push(Vec::new());
+                        } else {
+                            segs.last_mut().unwrap().push(*ch);
+                        }
+                    }
+                    let i = pos_of(segs.len() - 1, *a);
+                    let j = pos_of(segs.len() - 1, *b);
+                    segs.swap(i, j);
+                    let mut out: Vec<char> = Vec::with_capacity(cs.len());
+                    for (k, sg) in segs.into_iter().enumerate() {
+                        if k > 0 {
+                            out.push(*sc);
+                        }
+                        out.extend(sg);
+                    }
+                    cs = out;
+                }
+            }
+            Edit::MoveBlock(a, l, b) => {
+                if !cs.is_empty() {
+                    let i = pos_of(cs.len() - 1, *a);
+                    let j = (i + *l as usize).min(cs.len());
+                    let block: Vec<char> = cs.drain(i..j).collect();
+                    let k = pos_of(cs.len(), *b);
+                    cs.splice(k..k, block);
+                }
             }
             Edit::Number(p, k) => {
                 // find the digit run at/after the position
